@@ -251,6 +251,9 @@ func (t *Thread) Yield(args []Value) ([]Value, error) {
 // running.
 func (t *Thread) end(args []Value, err error, exception interface{}) {
 	caller := t.caller
+	// The pending to-be-closed variables are closed before taking the locks:
+	// their handlers are Lua code, which may resume, wrap or close coroutines.
+	err = t.cleanupCloseStack(nil, 0, err) // TODO: not nil
 	t.mux.Lock()
 	caller.mux.Lock()
 	defer t.mux.Unlock()
@@ -264,7 +267,6 @@ func (t *Thread) end(args []Value, err error, exception interface{}) {
 	close(t.resumeCh)
 	t.status = ThreadDead
 	t.caller = nil
-	err = t.cleanupCloseStack(nil, 0, err) // TODO: not nil
 	t.closeErr = err
 	// Release the memory before handing control back to the caller: once the
 	// values are sent the caller's goroutine runs and owns the runtime.
